@@ -34,13 +34,18 @@ def exhaustive(tier):
 def required(tier):
     return {"unique_reading": 10000, "no_reading": 300, "ambiguous": 100, "exact_spelling": 800,
             "numeric_prefix_once": 5000, "aged_compared": 5000, "casei_checked": 2000,
-            "generated_strings": 5000, "delta_forms": 30}
+            "generated_strings": 5000, "delta_forms": 30, "lookups_under_redefining_context": 300,
+            "lookups_after_redefining_context": 300}
 
 
 def shards(tier, seed):
     n = 8 if tier == "quick" else 16
     out = [{"kind": "cross", "part": i, "parts": n, "name": f"cross{i}",
             "rate": 0.16 if tier == "quick" else 1.0} for i in range(n)]
+    # the same parts again: same strings (the sampling seed is pinned), another hash seed -> finalize()
+    for i in range(2 if tier == "quick" else 4):
+        out.append(dict(out[i], name=f"cross{i}-again", sample_seed=1000 + i))
+        out[i]["sample_seed"] = 1000 + i
     out.append({"kind": "double", "name": "double", "n": 3000 if tier == "quick" else 30000})
     for i in range(2 if tier == "quick" else 4):
         out.append({"kind": "casei", "name": f"casei{i}", "n": 2500 if tier == "quick" else 20000})
@@ -48,6 +53,9 @@ def shards(tier, seed):
     for i in range(2 if tier == "quick" else 8):
         out.append({"kind": "generated", "name": f"gen{i}", "n": 6 if tier == "quick" else 40})
     out.append({"kind": "delta", "name": "delta"})
+    for i in range(2 if tier == "quick" else 6):
+        # names and symbols while a context that REDEFINES units is active, and after it was left
+        out.append({"kind": "redefctx", "name": f"redefctx{i}", "n": 25 if tier == "quick" else 80})
     return out
 
 
@@ -195,6 +203,8 @@ def run_shard(spec, rec):
 
     # --------------------------------------------------------------------------
     if kind == "cross":
+        if "sample_seed" in spec:
+            rng = random.Random(spec["sample_seed"])
         fresh = pintload.registry(non_int_type=F)
         aged = pintload.registry(non_int_type=F)
         spells = sorted(m.spell)
@@ -232,6 +242,57 @@ def run_shard(spec, rec):
                 rec.violation("fresh-vs-aged-differs", {"string": s, "fresh": g1, "aged": g2},
                               workload="cross", shape=shape(s))
         rec.sample({"strings": strings[:5], "asked": len(strings)})
+    elif kind == "redefctx":
+        ureg = pintload.registry(non_int_type=F)
+        cands = [c for c, u in m.units.items() if is_mult(c) and not u["is_base"] and m.is_multiplicative(c)
+                 and c.isidentifier() and m.root(c)[0].v > 0 and m.root(c)[1]
+                 # names that also read as prefix + unit (milliarcsecond) are refused by pint's
+                 # Context ("Can't redefine a unit with a prefix"): not this workload's subject
+                 and len(m.readings(c)) == 1]        # (rads = rad + s trips an assertion there)
+        withsym = [c for c in cands if m.units[c]["symbol"] and m.units[c]["symbol"] != c]
+        targets = rng.sample(withsym, min(len(withsym), spec["n"] * 2 // 3)) + rng.sample(cands, spec["n"] // 3)
+        ctx = pint.Context("c08redef")
+        chosen = []
+        for c in dict.fromkeys(targets):
+            u = m.units[c]
+            spellings = [c] + [a for a in u["aliases"] if a.isidentifier()]
+            lhs = c if rng.random() < 0.7 else rng.choice([x for x in spellings if len(m.readings(x)) == 1])
+            fac, root, _ = m.root(c)
+            rhs = " * ".join(f"{k} ** ({v})" for k, v in root.items())
+            line = f"{lhs} = {float(fac.v) * 1.0625!r} * {rhs}"
+            try:
+                ctx.redefine(line)
+            except Exception as e:  # noqa: BLE001
+                rec.count("redefinition_refused_by_context")
+                continue
+            chosen.append(c)
+        ureg.add_context(ctx)
+        pfx = sorted(m.pspell)
+        strings = []
+        for c in chosen:
+            u = m.units[c]
+            for sp in [c] + ([u["symbol"]] if u["symbol"] else []) + list(u["aliases"]):
+                if not sp.isidentifier():
+                    continue
+                strings.append(sp)
+                strings.append(sp + "s")
+                for p in rng.sample(pfx, 2):
+                    strings.append(p + sp)
+        strings = [x for x in dict.fromkeys(strings)]
+        rec.count("redefined_units", len(chosen))
+        with ureg.context("c08redef"):
+            # the redefinition took effect (otherwise the workload observes nothing)
+            c0 = chosen[0]
+            if ureg.convert(F(1), c0, ureg.get_root_units(c0)[1]) == m.root(c0)[0].v:
+                rec.inconc("context redefinition had no effect")
+            for x in strings:
+                # no numeric clause: Context.redefine parses its line with floats, exactness is not the point
+                judge(ureg, x, "redefctx-active", numeric=False)
+                rec.count("lookups_under_redefining_context")
+        for x in strings:
+            judge(ureg, x, "redefctx-left", numeric=False)
+            rec.count("lookups_after_redefining_context")
+        rec.sample({"redefined": chosen[:6], "strings": strings[:8]})
     elif kind == "double":
         fresh = pintload.registry(non_int_type=F)
         aged = pintload.registry(non_int_type=F)
@@ -375,7 +436,10 @@ def run_shard(spec, rec):
                     rec.case(("delta-prefix", nit.__name__, p + c))
                     if g[0] != "offset":
                         rec.violation("prefixed-offset-accepted", {"string": p + c, "got": g}, workload="delta")
-    rec.observe("ambiguous_choice_digest", f"{kind}:{spec.get('part', 0)}:{spec.get('rate', 1)}:{digest.hexdigest()}")
+    if kind == "cross":
+        # parts repeated under another PYTHONHASHSEED (names cross<i>-again) carry the same key
+        rec.observe("ambiguous_choice_digest", f"{kind}:{spec.get('part', 0)}:{spec.get('rate', 1)}:{digest.hexdigest()}")
+        rec.count("ambiguous_choice_digests")
 
 
 def make_shape(prefix_canon, unit_canon, prefix_spellings, m):
